@@ -227,6 +227,27 @@ def main(argv=None):
         else:
             discharged += 1
 
+    # assumption scans: a token sequence that must not occur (an assumed contract rests on its absence)
+    for fz in cfg.get("forbid_seq", []):
+        from .extract import SourceFile
+        from .rusttok import TRIVIA as _TRIVIA2, norm as _norm2
+        hits = []
+        try:
+            sf = SourceFile(fz["file"], open(os.path.join(REPO, fz["file"]), encoding="utf-8").read())
+            sig = [t for t in sf.toks if t.kind not in _TRIVIA2]
+            pat = _norm2(fz["seq"])
+            for k in range(len(sig) - len(pat) + 1):
+                if [t.text for t in sig[k:k + len(pat)]] == pat:
+                    hits.append(f"{fz['file']}:{sf.line_of(sig[k].start)}")
+        except OSError as e:
+            hits.append(f"lost anchor: {e}")
+        obligations += 1
+        clause_ids.append(fz["cid"])
+        if hits:
+            undecided.append(dict(unit="assumption-scan", reason="needs-contract", message=f"[{fz['cid']}] {fz['what']}: `{fz['seq']}` found at {', '.join(hits[:4])} -- the assumed contract is no longer justified, so this part is undecided"))
+        else:
+            discharged += 1
+
     # syntactic shape of the result loop of main() (C19): what R16 drops around the lifted `Ok(value)` arm -- the loop and the `match` --
     # is pinned token-wise, so that "one `printed(value, exact)` per Ok result, a diagnostic per Err result, nothing aborts the loop" follows
     if cfg.get("cli_loop_scan"):
